@@ -7,7 +7,7 @@ class C05(StartupProp):
     tags = ("C05",)
     quick_cases = 300
     thorough_cases = 20000
-    gen_kwargs = {"max_nodes": 10, "max_depth": 4, "p_await": 0.35, "p_stuck": 0.05, "p_burst": 0.1}
+    gen_kwargs = {"max_nodes": 10, "max_depth": 4, "p_await": 0.35, "p_stuck": 0.05, "p_burst": 0.25}
     rule = ("component trees of depth <=4 / fan-out <=4 / <=10 nodes (thorough: depth 5, 20 nodes), each component with or "
             "without prepare()/start(), scripts of <=5 actions (publish resource / factory, await sibling-uncle-parent "
             "resources, optional lookups, sleeps of 0/1/2/3/5 virtual ticks, teardown callbacks), awaits wired to "
